@@ -981,6 +981,11 @@ class Evaluator:
             for k, v in base[1:]:
                 if tm.veq(k, tm.freeze(key)):
                     return _unfz(v)
+        if isinstance(base, T) and base.op in ("store", "fold", "mutated", "dictupdate", "dictmerge") and isinstance(key, str):
+            from .rules import dict_get
+            got = dict_get(base, key)
+            if got is not None:
+                return _unfz(got)
         if isinstance(base, dict) and isinstance(key, T):
             r = T("lookup", (tm.freeze(base), key), tm.ANY)
             self.hazard(self._cur, "KeyError", r, self._curnode)
